@@ -72,6 +72,7 @@ func formEnveloped(form string) bool {
 type Frame struct {
 	Flags   byte   `json:"flags"`
 	Payload []byte `json:"payload"`
+	InBand  bool   `json:"-"` // parsed out of an enveloped stream (as opposed to a whole un-enveloped body)
 }
 
 func appendFrame(dst []byte, flags byte, payload []byte) []byte {
@@ -94,7 +95,7 @@ func parseFrames(data []byte) ([]Frame, error) {
 		if uint64(len(data)-5) < uint64(n) {
 			return out, fmt.Errorf("stream ends inside a payload (%d of %d bytes)", len(data)-5, n)
 		}
-		out = append(out, Frame{Flags: data[0], Payload: append([]byte(nil), data[5:5+n]...)})
+		out = append(out, Frame{Flags: data[0], Payload: append([]byte(nil), data[5:5+n]...), InBand: true})
 		data = data[5+n:]
 	}
 	return out, nil
@@ -134,6 +135,13 @@ func decompressBytes(name string, data []byte) ([]byte, error) {
 	if len(data) == 0 && (name == CompGzip || name == CompDeflate) {
 		return []byte{}, nil
 	}
+	return decompressFrame(name, data)
+}
+
+// decompressFrame is the strict reading used for the payload of an envelope whose compressed flag is
+// set: the payload has to be a complete stream of the declared compression. Zero bytes are not
+// (grpc-go, for one, answers "failed to decompress the message: EOF").
+func decompressFrame(name string, data []byte) ([]byte, error) {
 	switch name {
 	case CompGzip:
 		r, err := gzip.NewReader(bytes.NewReader(data))
